@@ -236,7 +236,9 @@ def shapes(tier):
             add("prop-%s-str-%s" % (op.name, neg), A(property_filters={P("k", "ab", op=op, value_type=V.STRING, negated=neg)}))
     add("prop-two", A(property_filters={P("k", "5", op=O.GT, value_type=V.INTEGER), P("j", "", op=O.EXISTS, negated=True)}))
     D = DescFilter
-    for text in ("foo", "a_b", "50%", "a\\b", "%", "_", "fo o", "Fo", "F_o", "A%", "1_2"):
+    # (LIKE's metacharacters % _ \\ and GLOB's * ? [ ] both as plain text, in lower-case = case-insensitive and with an
+    # upper-case letter = case-sensitive spellings)
+    for text in ("foo", "a_b", "50%", "a\\b", "%", "_", "fo o", "Fo", "F_o", "A%", "1_2", "a[i]", "A[i]", "F*o", "A?", "[", "B]"):
         for op in (DescOperator.CONTAINS, DescOperator.NOT_CONTAINS):
             add("desc-%s-%s" % ("".join("%02x" % ord(c) for c in text), op.name), A(desc_filters={D(text, op=op)}))
     add("desc-cs-explicit", A(desc_filters={D("fo", case_sensitive=True)}))
